@@ -49,6 +49,15 @@ func (st *State) enterLoopHeader(fr *Frame, from, target *ssa.BasicBlock, li *lo
 		}
 	}
 	if isBack {
+		if spec != nil {
+			for _, g := range spec.Ghosts {
+				sc := st.specCtx(fr, fmt.Sprintf("%s loop %d ghost %s", fnName, ord, g.Name))
+				idx, val := sc.eval(g.Index.Expr), sc.eval(g.Value.Expr)
+				nm := "G|u|" + g.Name
+				arr := st.arr(nm, "(Array Int Int)")
+				st.setArr(nm, "(Array Int Int)", store(arr, idx.C[0], val.C[0]))
+			}
+		}
 		evalInv("inv-preserve", true)
 		return false
 	}
@@ -61,6 +70,9 @@ func (st *State) enterLoopHeader(fr *Frame, from, target *ssa.BasicBlock, li *lo
 	pats := e.writeSet(fr.fn, li.body[target])
 	if spec != nil {
 		pats = append(pats, spec.Modifies...)
+		for _, g := range spec.Ghosts {
+			pats = append(pats, "G|u|"+g.Name)
+		}
 	}
 	allocs := false
 	st.loopHavoc = true
